@@ -8,7 +8,7 @@ import os
 import subprocess
 import sys
 
-from vf.harness import use_world, outcome, freeze, sample
+from vf.harness import use_world, outcome, freeze, sample, guarded
 from vf.simk.world import World
 
 ID = "C19"
@@ -393,7 +393,7 @@ RUNNERS = {"temp": case_temp, "thermal": case_thermal, "fans": case_fans, "batte
 
 def worker(chunk):
     import psutil
-    return [RUNNERS[c[0]](psutil, c) for c in chunk]
+    return [guarded(lambda c_, ps_: RUNNERS[c_[0]](ps_, c_), c, psutil) for c in chunk]
 
 
 def build_cases(thorough):
@@ -493,5 +493,5 @@ def replay(ctx, case):
         c = c[:10] + (tuple(c[10]) if c[10] is not None else None, c[11])
     if c[0] == "cpu" and c[1] == "count":
         c = c[:6] + (tuple(c[6]),)
-    bad = RUNNERS[c[0]](psutil, c)
+    bad = guarded(lambda c_, ps_: RUNNERS[c_[0]](ps_, c_), c, psutil)
     return {"violated": bool(bad), "viols": bad}
